@@ -7,7 +7,7 @@ CONSTANTS
   Future = 4
   Alpha = "time"
   MixedTerm = FALSE
-  Finding1 = TRUE
+  Finding1 = FALSE
   Finding2 = TRUE
 INVARIANT TypeOK
 INVARIANT NothingBeforeTheEnd
